@@ -24,6 +24,8 @@ def to_oa_date(date):
     result = 1
     for y in range(1900, year):
         result += year_days(y)
+    for y in range(year, 1900):
+        result -= year_days(y)
     month = date.month - 1
     for m in range(month):
         result += month_days(year, m)
